@@ -5,55 +5,86 @@ CFG = {'lean_modules': ['ObiVerif.Props.C11'],
  'thorough_seeds': 8,
  'rule': 'cases = (forward primer, reverse primer, two error budgets, min/max length, extension (-1 = none), only-full-extension, circular, batch of '
          'templates) for one call of obiapat.PCRSlice: hand-picked corpus (every defect found; sites at both ends, touching / overlapping / one symbol apart, '
-         'empty and shorter-than-primer templates, IUPAC primers of different lengths, upper case and ambiguous template symbols, many hits, clipped and '
-         'complete flanks, batches long-short-long, circular templates with the amplicon / the forward site / the reverse site across the origin, sites '
-         'overlapping across the origin, flanks reaching before the origin / past the end, circular templates shorter than 64); random primers of 2..10 '
-         '(sometimes 12..31) IUPAC positions with different lengths in 3 cases out of 4, budgets 0..2, 1..5 templates of 0..120 symbols (circular: 64..143, a '
-         'few shorter) over acgt (sometimes with n, IUPAC codes, upper case, or a 2-letter alphabet giving many hits) with 0..3 planted site pairs in either '
-         'orientation carrying 0..e+1 substitutions each, gap -3..25 (0, 1 and negative gaps forced in 3 cases out of 10; on circular templates also gaps that '
-         'make the product as long as the circle), at offset 0 / at the end / wrapping the origin in a fixed fraction of the cases; min/max chosen around a '
-         'planted gap (g,g / g+1,0 / 0,g-1 / 0,g+k / random); extension in {-1,0,1,2,3,5,10,30}; frag: generic obiiter.IFragments parameters then PCRSlice '
-         'over the fragments; cli: obipcr.CLIPCR --fragmented (options set through the verif hook) on templates of more than 1000 x max length with products '
-         'of maximal length planted just before the fragment ends. non-trivial = distinct case other than an empty single template / a primer of 64 positions',
+         'empty and shorter-than-primer templates, IUPAC primers of different lengths, primers of the extended grammar ([..], !, # — obligatory position hit '
+         'by a mismatch, negation facing an ambiguity code), reverse primer = reverse complement of the forward one, palindromic primers, sites sharing '
+         'symbols, 1600 amplicons from one template in a batch of one, products of exactly min / max / one more / one less symbols, negative bounds, upper '
+         'case / ambiguous / non-nucleotide / u template symbols, asymmetric budgets, clipped and complete flanks, batches long-short-long, circular templates '
+         'with the amplicon / the forward site / the reverse site across the origin, sites overlapping across the origin, product covering the circle exactly, '
+         'flanks reaching before the origin / past the end, window (sites + flanks) exactly as long as / longer than the circle, circular templates shorter '
+         'than 64); random primers of 2..10 (sometimes 12..31) IUPAC positions with different lengths in 3 cases out of 4, in 1 case out of 5 written with the '
+         'extended grammar (classes, negations, obligatory positions), in 1 out of 25 reverse = rc(forward) or a palindromic pair; budgets 0..2 (different in '
+         '1 case out of 4), 1..5 templates of 0..120 symbols (circular: 64..143, a few shorter) over acgt (sometimes with n, IUPAC codes, upper case, or a '
+         '2-letter alphabet giving many hits) with 0..3 planted site pairs in either orientation carrying 0..e+1 substitutions each, gap -3..25 (0, 1 and '
+         'negative gaps forced in 3 cases out of 10; on circular templates also gaps that make the product as long as the circle), at offset 0 / at the end / '
+         'wrapping the origin in a fixed fraction of the cases; min/max chosen around a planted gap (g,g / g+1,0 / 0,g-1 / 0,g+k / random); extension in '
+         '{-1,0,1,2,3,5,10,30}; window-edge cases (150 / 400): primers of unequal length, the complemented site of the last direct hit as far as max length '
+         'allows (gap in max-|lf-lr| .. max), either orientation; frag: generic obiiter.IFragments parameters then PCRSlice over the fragments; cli: '
+         'obipcr.CLIPCR (options set through the verif hook) — --fragmented on templates of more than 1000 x max length with products of maximal length '
+         'planted just before the fragment ends (also with extended-grammar primers and with --circular), and without --fragmented on 60 / 200 short linear or '
+         'circular templates with -l in {-2,0,g,g+1}, -L around the planted gap, --delta in {-3,-1,0,1,4,20}, --only-complete-flanking. non-trivial = distinct '
+         'case other than an empty single template / a primer of 64 positions',
  'technique': 'Lean 4 theorems on a transcription of _Pcr over the proved matcher model of C10 and the proved Subsequence / reverse-complement model of C07 + '
-              'differential correspondence with the real cgo-backed PCRSlice (amplicons in the order returned, id coordinates, nucleotides, match strings, '
-              'error counts) + independent oracle: brute force over all position pairs with a Hamming matcher written from the IUPAC table, and three '
-              'relations between real runs (reverse-complemented templates, rotated circular templates, each template alone vs in its batch)',
- 'level_text': 'Proved for every LINEAR template, every primer pair of 1..63 positions each (IUPAC classes, negations, obligatory positions; the two primers '
-               'may have different lengths), every budget, every min/max/extension/only-full setting: pcr_total (no log.Fatalf, no panic), pcr_sound (every '
-               'reported record is mkAmp of a site of one primer and a site of the complement of the other one located downstream, at least one symbol apart, '
-               'length within the bounds, window = segment between the sites or sites + flanks clipped / required complete; forward orientation as is, reverse '
-               'orientation reverse-complemented; match strings in primer orientation; error counts = Hamming costs; field-level reading in '
-               'mkAmp_forward_fields / mkAmp_reverse_fields), pcr_complete (every such pair is reported, in both orientations: the window of the second '
-               'search, computed with reverse.Len() in both blocks, never hides an admissible site), pcr_nodup (each pair once), pcr_strand_symmetry / '
-               'pcr_strand_symmetry_obs (templates over the 15 IUPAC nucleotide symbols: the PCR of the reverse complement is, as a multiset, the PCR of the '
-               'template with the direction flipped — same nucleotides, match strings and error counts; from C10 hamCost_rc and C07 rc_subseq / rc_rc; '
-               'hypothesis: the complemented patterns carry the mirrored code lists, which C10 checks by oracle on every pattern). CIRCULAR templates '
-               '(deepening round; hypothesis PrimersFit: no pattern longer than the template, true for every template of >= 64 symbols): '
-               'findAllIndex_exact_circular, pcr_total_circular, pcr_sound_circular, pcr_complete_circular, pcr_rotation / pcr_rotation_mem / '
-               'pcr_rotation_perm (rotating the template rotates the coordinates and leaves the multiset of amplicons unchanged), pcr_strand_symmetry_circular '
-               '/ _obs. The batch is a map over the templates in the model; that the recycled C buffer does not leak from one template to the next is checked '
-               'on the real code (each template alone = in its batch).',
+              'differential correspondence with the real cgo-backed PCRSlice / IFragments / CLIPCR (amplicons in the order returned, id coordinates, '
+              'nucleotides, match strings, error counts) + independent oracle: brute force over all pairs of sites found by a naive matcher written from the '
+              'documented primer grammar (classes, negations, obligatory positions; IUPAC table and reverse complement written in the harness), annotations of '
+              'every amplicon (forward_primer, reverse_primer, direction, types of the match / error attributes, annotations inherited from the template), '
+              'number of reports of each amplicon in fragmented mode = number of pieces containing it, and three relations between real runs '
+              '(reverse-complemented templates, rotated circular templates — 3 origins per case in quick, 12 in thorough and every origin for one case out of '
+              '8 —, each template alone vs in its batch)',
+ 'level_text': 'Proved for every LINEAR template, every primer pair of 1..63 positions each (IUPAC classes, [..] classes, negations, obligatory positions; the '
+               'two primers may have different lengths), every budget, every min/max/extension/only-full setting: pcr_total (no log.Fatalf, no panic), '
+               'pcr_sound (every reported record is mkAmp of a site of one primer and a site of the complement of the other one located downstream, at least '
+               'one symbol apart, length within the bounds, window = segment between the sites or sites + flanks clipped / required complete; forward '
+               'orientation as is, reverse orientation reverse-complemented; match strings in primer orientation; error counts = Hamming costs; field-level '
+               'reading in mkAmp_forward_fields / mkAmp_reverse_fields), pcr_complete (every such pair is reported, in both orientations), pcr_nodup (each '
+               'pair once), lengthOk_iff (min / max are inclusive bounds, 0 = none, touching sites never reported), linBounds_spec (the window with --delta: '
+               'clipped at the template ends / required complete), cliOpts_spec (what CLIPCR passes on), pcr_strand_symmetry / _obs (templates over the 15 '
+               'IUPAC symbols: the PCR of the reverse complement is, as a multiset, the PCR of the template with the direction flipped) and '
+               'pcr_strand_symmetry_grammar / pcr_strand_symmetry_circular_grammar: for EVERY primer pair written in the documented grammar the options '
+               'compile, PrimersOk and PrimersMirror hold (mkPrimers_grammar, from C10 complement_mirror) and strand symmetry holds without hypothesis on the '
+               'patterns. CIRCULAR templates (hypothesis PrimersFit: no pattern longer than the template, true for every template of >= 64 symbols): '
+               'findAllIndex_exact_circular, pcr_total_circular, pcr_sound_circular, pcr_complete_circular, pcr_rotation / _mem / _perm, '
+               'pcr_strand_symmetry_circular / _obs; pcr_circular_window_partial (the window is the requested one whenever the request fits in one turn) + '
+               'pcr_circular_window_counterexample (it is not otherwise: open finding). FRAGMENTED search (IFragments + _PCRSlice over the pieces, linear): '
+               'fragLoop_cover (every window of at most overlap+1 symbols lies inside one piece; overlap_bound_exact: the bound is exact, and the former '
+               'overlap of CLIPCR loses a product), pcr_piece_iff (records of a piece = records of the template lying inside the piece, coordinates shifted), '
+               'pcr_piece_complete (every mode), pcr_piece_clipped (the open finding C11-frag-clipped-flank stated exactly: same sites, window contained in '
+               'the one of the template, equal unless an inner piece end clipped a flank), pcr_fragmented_complete / pcr_fragmented (union over the pieces = '
+               'amplicons of the template under the exact condition max length + both sites + both flanks <= overlap + 1; no flanks or complete flanks for the '
+               'converse), pcr_fragment_duplicates (an amplicon is reported by two pieces iff its sites and window lie inside both: duplicates are exactly the '
+               'amplicons inside an overlap; CLIPCR does not de-duplicate), cli_fragmented (with the parameters of the repaired CLIPCR and primers of the '
+               'grammar the condition holds as soon as overlap < 100 x max length), fragments_total / fragments_pieces. The batch is a map over the templates '
+               'in the model; that the recycled C buffer does not leak from one template to the next is checked on the real code (each template alone = in its '
+               'batch).',
  'level_note': 'Trusted: Lean kernel; the transcription Model/Pcr.lean (validated differentially, order of the amplicons included) and, through it, '
                'Model/Apat.lean and Model/SeqOps.lean; the C compiler. The model follows the code as repaired by the four C11 patches (reverse block circular '
-               "length, circular extension before the origin, sites overlapping across the origin, fragment overlap of obipcr). Out of the oracle's scope "
-               '(correspondence only): a circular window sites + flanks longer than the circle (Subsequence silently returns the window modulo the length), '
-               'primers written with the extended grammar ([..], !, #). Circular templates shorter than 64 symbols: the C encoder reads 64 symbols whatever '
-               'the length (C10 note); results are compared when no primer is longer than the template (the bytes read past the end cannot be seen then), '
-               'otherwise printed as `unmodelled`. Primers of 64 positions: `unmodelled` (C10 finding patlen64). obipcr --fragmented reports an amplicon lying '
-               'in the overlap of two fragments twice, and with --delta without --only-complete-flanking a fragment end clips a flank like a template end '
-               '(signature cli.clipped-flank / frag.clipped-flank, proposed as an open finding).',
- 'trusted_base': LEAN_TB + ['extract/ (tables of C10 / C07)',
- 'C compiler translation of the obiapat C sources',
- 'brute-force Hamming matcher, IUPAC table and reverse complement written independently in harness/c11.go',
- 'pkg/obitools/obipcr/verif_hooks.go (sets the option variables of obipcr)'],
+               'length, circular extension before the origin, sites overlapping across the origin, fragment overlap of obipcr). Open findings shown by the '
+               'oracle on the real code and modelled as the code is: (1) a circular window sites + flanks longer than the circle is returned modulo the length '
+               '(signature pcr.circ.overlong-window; the oracle expects the window read turn after turn); (2) obipcr --fragmented with --delta without '
+               '--only-complete-flanking: a piece end clips a flank (cli.clipped-flank / frag.clipped-flank; theorem pcr_piece_clipped); (3) obipcr '
+               '--fragmented --circular searches every linear piece as a circle (cli.circular-fragments; no theorem: the pieces of a circular template are '
+               'outside the fragment theorems, which are about linear templates). obipcr --fragmented reports an amplicon lying in the overlap of two pieces '
+               'once per piece (pcr_fragment_duplicates; counted by the oracle cli.count, not a violation: the property does not forbid it and the ids '
+               'differ). Not in the model, oracle only: the annotations forward_primer / reverse_primer / inherited annotations. Circular templates shorter '
+               'than 64 symbols: the C encoder reads 64 symbols whatever the length (C10 note); results are compared when no primer is longer than the '
+               'template, otherwise printed as `unmodelled`. Primers whose string has 64 characters or more: `unmodelled` (C10 finding patlen64). IFragments '
+               'with overlap >= length does not advance (model: none, driver: bad-op; hypothesis of cli_fragmented). Circular theorems and the fragment '
+               'theorems are about the model; cli_fragmented is stated for primers of the grammar (for other strings the primers do not compile: log.Fatalf).',
+ 'trusted_base': LEAN_TB + [
+                  'extract/ (tables of C10 / C07)',
+                  'C compiler translation of the obiapat C sources',
+                  'naive matcher for the documented primer grammar, IUPAC table, reverse complement and fragment cutting written independently in '
+                  'harness/c11.go',
+                  'pkg/obitools/obipcr/verif_hooks.go (sets the option variables of obipcr)'],
  'modelled': 'pkg/obiapat/pcr.go (_Pcr both orientation blocks, _PCRSlice / PCRSlice, MakeOptions and the Option* setters), pkg/obitools/obipcr/pcr.go '
-             '(fragmenting parameters of CLIPCR), pkg/obiiter/fragment.go (cutting loop of IFragments); through the imported models: pkg/obiapat pattern '
-             'matcher (C10), pkg/obiseq Subsequence and ReverseComplement (C07)',
+             '(options and fragmenting parameters of CLIPCR), pkg/obiiter/fragment.go (cutting loop of IFragments); through the imported models: pkg/obiapat '
+             'pattern matcher (C10), pkg/obiseq Subsequence and ReverseComplement (C07)',
  'assumptions': ['primers of 1..63 positions, budgets <= 63 (C10 domain); no indels (PCR compiles its primers without)',
-                 'theorems: linear templates; strand symmetry: template over a,c,g,t,r,y,m,k,s,w,b,d,h,v,n (no u: open C10 finding) and complemented patterns '
-                 '= mirrored code lists (C10 oracle)',
+                 'strand symmetry: template over a,c,g,t,r,y,m,k,s,w,b,d,h,v,n (no u: open C10 finding); the mirrored code lists of the complemented patterns '
+                 'are proved for primers of the documented grammar, a hypothesis (checked by the C10 oracle) for other pattern values',
                  'a pair of sites yields an amplicon only when at least one symbol lies between them (touching sites are rejected by the code on purpose: "For '
                  'when primers touch or overlap"); on a circular template the two sites must not overlap anywhere on the circle',
-                 'circular window with flanks longer than the circle: not specified, excluded from the oracle',
-                 'fragmented mode is compared as a set with the unfragmented result (duplicates in overlaps are counted, not flagged)']}
+                 'circular window with flanks longer than the circle: the property wants the flanks as requested; the code returns the request modulo the '
+                 'length (open finding)',
+                 'fragmented mode: set equality with the unfragmented result + number of reports per amplicon = number of pieces containing it; linear '
+                 'templates only']}
